@@ -5,10 +5,41 @@ use helgoboss_midi::*;
 
 /// Runs a history (4 integers per operation) on a scanner, appending 3 integers per operation.
 pub fn run_ops(sc: &mut ControlChange14BitMessageScanner, ops: &[i64], obs: &mut Vec<i64>) -> bool {
+    let mut prev = [0i64, 248, 0, 0];
     for op in ops.chunks(4) {
         if op.len() < 4 {
             break;
         }
+        if op[0] == 9 {
+            // the previous operation op[1] (>= 2) more times; observed: the first and the last
+            // of these applications (the model applies it twice: it is stable from then on)
+            let p = prev;
+            if matches!(p[0], 2 | 8 | 10) {
+                obs.extend_from_slice(&enc_cc14(&None));
+                obs.extend_from_slice(&enc_cc14(&None));
+                continue;
+            }
+            let first = region(|| with_msg(p[0], p[1], p[2], p[3], &mut |m| m.feed_cc14(sc)));
+            let n = op[1].max(2) - 1;
+            let last = region(|| {
+                with_msg(p[0], p[1], p[2], p[3], &mut |m| {
+                    let mut l = None;
+                    for _ in 0..n {
+                        l = m.feed_cc14(sc);
+                    }
+                    l
+                })
+            });
+            match (first, last) {
+                (Some(a), Some(b)) => {
+                    obs.extend_from_slice(&enc_cc14(&a));
+                    obs.extend_from_slice(&enc_cc14(&b));
+                }
+                _ => return false,
+            }
+            continue;
+        }
+        prev = [op[0], op[1], op[2], op[3]];
         let r = match op[0] {
             2 => region(|| {
                 for _ in 0..=op[1] {
@@ -290,6 +321,15 @@ pub fn gen_c08(tier: Tier, seed: u64, em: &mut Emitter) {
                                                  0, s, a + 32, 1, 0, s, b + 32, 2]);
             }
         }
+    }
+    // one operation repeated very many times (op kind 9)
+    {
+        let n: i64 = if cfg!(debug_assertions) { 70_000 } else { (1 << 24) + 5 };
+        let s = 176 + r.below(16) as i64;
+        let c = r.below(32) as i64;
+        em.emit_k("one operation repeated very many times", 80, vec![0, s, c, 5, 9, n, 0, 0, 0, s, c + 32, 6]);
+        em.emit_k("one operation repeated very many times", 80, vec![0, s, c, 5, 0, s, c + 32, 6, 9, n, 0, 0, 0, s, c, 7, 0, s, c + 32, 8]);
+        em.emit_k("one operation repeated very many times", 80, vec![0, s, c, 5, 0, s, 70, 6, 9, n, 0, 0, 0, s, c + 32, 8]);
     }
     // this scanner has no notion of time: real time passing between MSB and LSB changes nothing
     let sleeps: &[i64] = if tier == Tier::Thorough { &[1200, 6000] } else { &[1200] };
